@@ -110,3 +110,22 @@ Proof.
   - destruct Hp as [Hb Hk]. split; eauto.
 Qed.
 End WP.
+
+(* a process can die between any two calls: what a monitored-safety theorem says of a run it says of
+   every prefix of the run *)
+Section Prefix.
+Variable S : Type.
+Variable step : S -> call -> resp -> S.
+Variable okc : S -> call -> Prop.
+Lemma trace_ok_firstn k : forall st tr, trace_ok S step okc st tr -> trace_ok S step okc st (firstn k tr).
+Proof.
+  induction k as [|k IH]; intros st tr H; [exact I|]. destruct tr as [|e r]; [exact I|].
+  cbn [firstn trace_ok] in *. destruct H as [H1 H2]. split; [exact H1|apply IH; exact H2].
+Qed.
+Theorem safe_on_every_crash_prefix {A} (p : prog A) st tr o k :
+  safe S step okc st p -> runs p tr o -> trace_ok S step okc st (firstn k tr).
+Proof. intros Hs Hr. apply trace_ok_firstn. exact (safe_sound S step okc p st Hs tr o Hr). Qed.
+End Prefix.
+
+Lemma Forall_firstn {X} (P : X -> Prop) k : forall l, Forall P l -> Forall P (firstn k l).
+Proof. induction k as [|k IH]; intros l H; [constructor|]. destruct l; [constructor|]. inversion H; subst. cbn. constructor; auto. Qed.
